@@ -2,7 +2,7 @@
 # tools/runall.sh [quick|thorough]: every claimed check on the unchanged tree; regenerates evidence/*.json
 tier=${1:-quick}
 cd "$(dirname "$0")/.."
-test -z "$(git -C /repo status --porcelain)" || { echo "/repo is not clean"; exit 2; }
+R=${VERIF_REPO:-/repo}; test -z "$(git -C $R status --porcelain)" || { echo "$R is not clean"; exit 2; }
 rc=0
 for p in $(/venv/bin/python -c "import json;print(' '.join(c['property_id'] for c in json.load(open('MANIFEST.json'))['checks']))"); do
   s=$(date +%s); out=$(./check $p --tier $tier 2>&1); e=$?
